@@ -729,3 +729,53 @@ Proof.
   destruct (h_run_refines_gen slack evs _ _ [] _ _ _ _ h_init_inv Hr Hh) as (Hq & Hb & _).
   split; assumption.
 Qed.
+
+(** * 9. a reporting round over several servers *)
+
+Definition no_accept_before (servers : list (list (N * N) * srv_mode)) (i : nat) : Prop :=
+  forall j v m, (j < i)%nat -> nth_error servers j = Some (v, m) -> m <> MAccept.
+
+(* the i-th server, when no earlier one accepted, is contacted and receives the report built from the local information and
+   from ITS OWN versions (nothing when its index list call failed) *)
+Lemma report_round_nth : forall local flag servers i vers m,
+  nth_error servers i = Some (vers, m) ->
+  no_accept_before servers i ->
+  nth_error (report_round local flag servers) i =
+  Some (match m with MFailIndex => None | _ => build_report local vers flag end).
+Proof.
+  intros local flag. induction servers as [|[v0 m0] t IH]; intros i vers m Hn Hb.
+  - destruct i; discriminate.
+  - destruct i as [|i].
+    + cbn [nth_error] in Hn. injection Hn as -> ->. cbn [report_round]. destruct m; reflexivity.
+    + cbn [nth_error] in Hn.
+      assert (Hm0 : m0 <> MAccept) by (apply (Hb 0%nat v0 m0); [lia|reflexivity]).
+      assert (Hb' : no_accept_before t i).
+      { intros j v m' Hj Hnj. apply (Hb (S j) v m'); [lia|exact Hnj]. }
+      cbn [report_round]. destruct m0; [congruence| |]; cbn [nth_error]; apply IH; assumption.
+Qed.
+
+(* ... and nobody is contacted after the first server that accepted *)
+Lemma report_round_stops : forall local flag servers i vers,
+  nth_error servers i = Some (vers, MAccept) ->
+  no_accept_before servers i ->
+  length (report_round local flag servers) = S i.
+Proof.
+  intros local flag. induction servers as [|[v0 m0] t IH]; intros i vers Hn Hb.
+  - destruct i; discriminate.
+  - destruct i as [|i].
+    + cbn [nth_error] in Hn. injection Hn as -> ->. reflexivity.
+    + cbn [nth_error] in Hn.
+      assert (Hm0 : m0 <> MAccept) by (apply (Hb 0%nat v0 m0); [lia|reflexivity]).
+      assert (Hb' : no_accept_before t i).
+      { intros j v m' Hj Hnj. apply (Hb (S j) v m'); [lia|exact Hnj]. }
+      cbn [report_round]. destruct m0; [congruence| |]; cbn [length]; f_equal; eapply IH; eassumption.
+Qed.
+
+Lemma report_round_all : forall local flag servers,
+  (forall v m, In (v, m) servers -> m <> MAccept) ->
+  length (report_round local flag servers) = length servers.
+Proof.
+  intros local flag. induction servers as [|[v0 m0] t IH]; intros H; [reflexivity|].
+  assert (Hm0 : m0 <> MAccept) by (apply (H v0 m0); left; reflexivity).
+  cbn [report_round]. destruct m0; [congruence| |]; cbn [length]; f_equal; apply IH; intros v m Hin; apply (H v m); right; exact Hin.
+Qed.
